@@ -420,6 +420,9 @@ def gen_regex(rng, wide=False):
     k = rng.random()
     if k < 0.42:
         alpha = [0x61, 0x62, 0x63]
+    elif k < 0.46:
+        # both ends of the byte range next to letters: the case tables have 256 entries
+        alpha = [0x00, 0xFF, 0x61, 0x41, 0x01, 0xFE]
     elif k < 0.5:
         # first/last letters of both cases and their ASCII neighbours ('@', '[', '`', '{'): case-range boundaries
         alpha = rng.sample([0x7a, 0x5a, 0x61, 0x41, 0x79, 0x62], 3) + rng.sample([0x40, 0x5b, 0x60, 0x7b], 1)
